@@ -49,20 +49,24 @@ class TallySpec(Spec):
     title = 'modules of doctests with by-construction outcomes through the native runner'
     batch = 2
 
-    def __init__(self, name, max_len, min_len=1):
+    def __init__(self, name, max_len, min_len=1, max_cost=99):
         self.name = name
         self.max_len = max_len
         self.min_len = min_len
-        self.max_cost = 99
-        self.rule = ('history = sequence of <= %d doctests over the outcome kinds %r; each module is run with command '
+        self.max_cost = max_cost
+        self.rule = ('history = sequence of <= %d doctests over the outcome kinds %r (cost: pass 0, the eight classic kinds 1, '
+                     'the rest 2; total cost <= MAXCOST); each module is run with command '
                      'all (verbosity 0/1/3, API and CLI entry), list, and each doctest name; non-trivial = module '
-                     'mixing at least two different outcomes' % (max_len, outcomes.KINDS))
+                     'mixing at least two different outcomes' % (max_len, outcomes.KINDS)).replace('MAXCOST', str(max_cost))
 
     def init(self):
         return (0, 0, 0, 0)      # passed, failed, skipped, disabled
 
     def enabled(self, S, hist):
         return outcomes.KINDS
+
+    def cost(self, ev):
+        return outcomes.kind_cost(ev)
 
     def step(self, S, ev):
         p, f, s, d = S
@@ -98,7 +102,7 @@ class TallySpec(Spec):
                     return t
                 return ''
             try:
-                names = ['f%d' % j for j in range(len(kinds))]
+                names = [outcomes.fname(j) for j in range(len(kinds))]
                 exp_failed = [n for n, k in zip(names, kinds) if outcomes.outcome(k) == 'failed']
                 exp_trace = ''.join(n + ';' for n, k in zip(names, kinds) if outcomes.traces(k))
                 # ---- all ----
@@ -168,7 +172,7 @@ class TallySpec(Spec):
                             continue
                         exp_tr = (n + ';') if outcomes.traces(k, named=True) else ''
                         if tr != exp_tr:
-                            atoms.append({'sig': 'named:executed-set' + (':disabled' if k == 'disabled' else ''),
+                            atoms.append({'sig': 'named:executed-set' + (':disabled' if k in outcomes.DISABLED else ''),
                                           'msg': 'running %s:0 (%s) executed %r, expected %r' % (n, k, tr, exp_tr)})
                         o = outcomes.outcome(k, named=True)
                         if use_main:
@@ -217,7 +221,7 @@ class CliSpec(TallySpec):
             r = subprocess.run([sys.executable, '-m', 'xdoctest', path, 'all', '--nocolor', '--verbose=1'], cwd=d,
                                env=env, capture_output=True, text=True, timeout=120)
             tr = open(tracefile).read() if os.path.exists(tracefile) else ''
-            names = ['f%d' % j for j in range(len(kinds))]
+            names = [outcomes.fname(j) for j in range(len(kinds))]
             exp_trace = ''.join(n + ';' for n, k in zip(names, kinds) if outcomes.traces(k))
             if tr != exp_trace:
                 atoms.append({'sig': 'cli:executed-set', 'msg': '%r vs %r' % (tr, exp_trace)})
@@ -242,5 +246,5 @@ class CliSpec(TallySpec):
 
 def specs(tier):
     if tier == 'thorough':
-        return [TallySpec('modules<=4', 4), CliSpec('cli<=3', 3)]
-    return [TallySpec('modules<=3', 3), CliSpec('cli<=2', 2)]
+        return [TallySpec('modules<=3', 3), TallySpec('modules=4', 4, min_len=4, max_cost=4), CliSpec('cli<=3', 3, max_cost=4)]
+    return [TallySpec('modules<=2', 2), TallySpec('modules=3', 3, min_len=3, max_cost=3), CliSpec('cli<=2', 2)]
